@@ -11,7 +11,8 @@ Notation vsock := (vsock CC).
 (* ------------------------------------------------------------------ a whole poll under G0 *)
 Definition pG0 (s00 s' : vsock) (r : poll_result) : Prop :=
   match r with
-  | PollPending | PollPanic => G0 s00 s'
+  | PollPending => G0 s00 s' /\ (v_transport_pending s' = false -> not_closed s')
+  | PollPanic => G0 s00 s'
   | PollReadyOk => exists s1, G0 s00 s1 /\ s' = just_before_death s1 None
   | PollReadyErr e => exists s1, G0 s00 s1 /\ s' = just_before_death s1 (Some e)
   end.
@@ -24,7 +25,7 @@ Proof.
   - intros s H. pose proof (poll_body_G0 cci s) as B.
     destruct (poll_body cci s) as [s' r|s'|]; cbn [bG0] in B; [|eapply G0_trans; eauto|exact I].
     destruct r; cbn [pG0].
-    + eapply G0_trans; eauto.
+    + destruct B as [B1 B2]. split; [eapply G0_trans; eauto|exact B2].
     + destruct B as (s1 & B1 & B2). exists s1. split; [eapply G0_trans; eauto|exact B2].
     + destruct B as (s1 & B1 & B2). exists s1. split; [eapply G0_trans; eauto|exact B2].
     + contradiction.
@@ -78,7 +79,7 @@ Proof.
   assert (Hst : v_state (poll_init s) = v_state s) by reflexivity.
   cut (FN (poll_init s) s'). { unfold FN. rewrite Hst. auto. }
   destruct r; cbn [pG0] in E.
-  - apply G0_FN; assumption.
+  - apply G0_FN; [exact Ho|apply E].
   - destruct E as (s1 & E1 & ->). apply G0_FN; [exact Ho|]. apply jbd_G0; auto.
   - destruct E as (s1 & E1 & ->).
     destruct (is_local_fin_or_later (v_state s1)) eqn:El.
@@ -134,7 +135,7 @@ Proof.
   intro E. apply poll_G0 in E.
   assert (Ho : v_out (poll_init s) = []) by reflexivity.
   destruct r; cbn [pG0] in E.
-  - apply (G0_no_reset _ _ Ho E).
+  - apply (G0_no_reset _ _ Ho (proj1 E)).
   - destruct E as (s1 & E1 & ->). apply jbd_no_reset. apply (G0_no_reset _ _ Ho E1).
   - destruct E as (s1 & E1 & ->). apply jbd_no_reset. apply (G0_no_reset _ _ Ho E1).
   - apply (G0_no_reset _ _ Ho E).
@@ -198,27 +199,6 @@ Proof.
   rewrite R. apply H2; [exact R|reflexivity].
 Qed.
 
-(* poll_body in three parts *)
-Definition body_head (k : vsock -> body_res) (s0 : vsock) : body_res :=
-  pend (maybe_send_syn_ack (body_start s0)) (fun s _ =>
-  pend (if immediate_ack_to_transmit s then send_ack s else SOk s false) (fun s _ =>
-  pend (process_all_incoming_messages cci s) (fun s _ => k s))).
-
-Definition body_mid (k : vsock -> body_res) (s : vsock) : body_res :=
-  let '(rx1, fr, w) := rx_flush (v_rx s) in
-  match fr with
-  | FlPanic => BrPanic
-  | FlOk _ =>
-    let s := add_wakes (set_rx s rx1) (rx_wakes w) in
-    if timer_expired (v_t_inactivity s) (v_now s) then die s ErrRemoteInactiveForTooLong
-    else
-    bail (split_tx_queue_into_segments cci s) (fun s _ =>
-    pend (send_tx_queue cci s) (fun s _ => k s))
-  end.
-
-Lemma body_front_parts k s0 : body_front cci k s0 = body_head (body_mid k) s0.
-Proof. reflexivity. Qed.
-
 Lemma imm_GN (s : vsock) : sGN s (if immediate_ack_to_transmit s then send_ack s else SOk s false).
 Proof. destruct (immediate_ack_to_transmit s); [apply send_ack_GN|apply GN_refl]. Qed.
 
@@ -226,7 +206,7 @@ Lemma imm_G (s : vsock) : sG s (if immediate_ack_to_transmit s then send_ack s e
 Proof. destruct (immediate_ack_to_transmit s); [apply send_ack_G|apply G_refl]. Qed.
 
 Lemma head_RP k (t : vsock) :
-  NF t -> (forall s3, NF s3 -> v_restart s3 = false -> RP (k s3)) -> RP (body_head k t).
+  NF t -> (forall s3, NF s3 -> v_restart s3 = false -> RP (k s3)) -> RP (body_head cci k t).
 Proof.
   intros Hn Hk. unfold body_head.
   assert (N0 : NF (body_start t)) by exact Hn. revert N0. generalize (body_start t). intros s N0.
@@ -269,7 +249,7 @@ Proof.
   cbv zeta. destruct (next_timer_to_poll _) as [sx tx]. unfold RP, RQ. discriminate.
 Qed.
 
-Lemma mid_RP (s3 : vsock) : NF s3 -> v_restart s3 = false -> RP (body_mid body_back s3).
+Lemma mid_RP (s3 : vsock) : NF s3 -> v_restart s3 = false -> RP (body_mid cci body_back s3).
 Proof.
   intros N3 R3. unfold body_mid. destruct (rx_flush (v_rx s3)) as [[rx1 fr] w]. destruct fr; [|exact I].
   cbv zeta.
@@ -293,7 +273,7 @@ Qed.
 
 Lemma poll_body_RP (t : vsock) : NF t -> RP (poll_body cci t).
 Proof.
-  intro Hn. rewrite poll_body_parts, body_front_parts. apply head_RP; [exact Hn|].
+  intro Hn. rewrite poll_body_parts. unfold body_front. apply head_RP; [exact Hn|].
   intros s3 N3 R3. apply mid_RP; assumption.
 Qed.
 
@@ -878,7 +858,7 @@ Proof.
   { intros t [Ht Hc]. pose proof (body_FAD t) as B. destruct (poll_body cci t) as [s1 r1|s1|]; [| |exact I].
     - intros f Hf. destruct B as [B|[B|(B1 & B2)]]; [left; auto|right; left; exact B|].
       right; right. split; [congruence|exact B2].
-    - destruct B as ((_ & _ & _ & B4) & BW). split; [intros f Hf; auto|congruence]. }
+    - destruct B as ((_ & _ & _ & B4 & _) & BW). split; [intros f Hf; auto|congruence]. }
   specialize (H Hb 64%nat (poll_init s)). rewrite E in H. apply H. split; [auto|reflexivity].
 Qed.
 
